@@ -185,7 +185,8 @@ def classify_marker(ctx, ci, fi, regex, facts=()):
         if p.raises():
             continue
         n_live += 1
-        gt = list(gtexts(p)) + list(facts)        # facts: what _compile tested before installing this strategy
+        from ..model import path_facts
+        gt = list(gtexts(p)) + list(facts) + sorted(path_facts(p))     # facts: what _compile tested before installing this strategy; conjuncts of compound tests
         s = store_of(p)
         label = '[%s] %s' % ('regex' if regex else 'bytes', fi.qual)
         if s is None:
